@@ -3,7 +3,7 @@ import gen
 
 from . import common
 
-TRUSTED = ["C05 predicate check_c05 (Model/Checks.v): sequence of full-width heading rows / subline paragraphs and tagged data rows per parsed page"]
+TRUSTED = ["C05 predicate check_c05 (Model/Checks.v): sequence of full-width heading rows / subline paragraphs and tagged data rows per parsed page; clause 8 (a divider never costs a data row) uses the model's per-row line counts and available rows"]
 ASSUMPTIONS = ["group keys sorted (hierarchically contiguous), level-specific labels (@A.. outer, @B.., @C..) so that a heading's level is recognisable"]
 
 
@@ -52,16 +52,27 @@ _PATTERNS3 = three_level_patterns()
 _DIRECTED3 = [p for p in _PATTERNS3 if len(p) == 2]
 
 
-def pattern_spec(pat, nrow):
+def pattern_spec(pat, nrow, key="page_by"):
     lab = lambda lvl, v: "-----" if v == "-" else f"@{'ABC'[lvl]}{v}"
     L = len(pat[0])
     names = [f"g{l}" for l in range(L)]
     rows = [[f"#{i}#"] + [lab(l, t[l]) for l in range(L)] + ["x"] for i, t in enumerate(pat)]
-    return {"df": {"cols": ["id"] + names + ["c0"], "rows": rows}, "body": {"page_by": names}, "page": {"nrow": nrow},
-            "kind": "single", "strategy": "page_by", "header_mode": "default"}
+    return {"df": {"cols": ["id"] + names + ["c0"], "rows": rows}, "body": {key: names}, "page": {"nrow": nrow},
+            "kind": "single", "strategy": "page_by" if key == "page_by" else "subline", "header_mode": "default"}
+
+
+# runs of divider rows long enough to fill pages: a divider must be budgeted like a plain row
+_DIVIDER_RUNS = [
+    pattern_spec((("-",),) * 7, 4), pattern_spec((("-", "-"),) * 7, 5), pattern_spec((("-",),) * 3 + (("1",),) * 4, 4),
+    pattern_spec((("-", "-"),) * 4 + (("1", "-"),) * 4, 4), pattern_spec((("-",),) * 7, 4, "subline_by"),
+    pattern_spec((("-",),) * 5 + (("1",),) * 3, 5, "subline_by"), pattern_spec((("-",),) * 11, 5),
+]
 
 
 def generate(g, i):
+    if i < len(_DIVIDER_RUNS):
+        return _DIVIDER_RUNS[i]
+    i -= len(_DIVIDER_RUNS)
     r = g.r
     if i < len(_EXTRA3):
         return pattern_spec(_EXTRA3[i], 14)
@@ -88,5 +99,7 @@ def run(ctx):
     random.Random(ctx["seed"] + 55).shuffle(order)
     _ORDER[:] = order
     _N_PATTERNS[0] = len(_PATTERNS) if ctx["tier"] != "quick" else min(len(_PATTERNS), 90)
+    common.TIE_EXCUSES["value"] = True      # clause 8 of check_c05 counts lines
     _EXTRA3[:] = _DIRECTED3 if ctx["tier"] == "quick" else _PATTERNS3
-    return common.run_docprop(ctx, "c05", generate, None, n_quick=180 + 90 + len(_DIRECTED3), n_thorough=3000 + len(_PATTERNS) + len(_PATTERNS3))
+    return common.run_docprop(ctx, "c05", generate, None, n_quick=180 + 90 + len(_DIRECTED3) + len(_DIVIDER_RUNS),
+                              n_thorough=3000 + len(_PATTERNS) + len(_PATTERNS3) + len(_DIVIDER_RUNS))
